@@ -43,6 +43,11 @@ ActionClauses(pre, r, post) ==
   \o (IF WF(post) /\ \E k \in DOMAIN r.has : r.has[k][2] # HasSimplex(post, Range(r.has[k][1]))
          THEN <<"C03:has_simplex">> ELSE <<>>)
   \o (IF pre.frozen /\ (Struct(post) # Struct(pre) \/ ~post.frozen) THEN <<"C18:FrozenImmutable">> ELSE <<>>)
+  \* a call that would change the structure of an unfrozen twin must be rejected
+  \o (IF pre.frozen /\ r.op.name \in SCStructuralOps /\ r.res # "liberr"
+         /\ ~(\E o \in SCUnfrozen([pre EXCEPT !.frozen = FALSE], r.op, post.nodes, <<>>) : o.res = r.res /\ Struct(o.st) = Struct(pre))
+       THEN <<"C18:NotRejected">> ELSE <<>>)
+  \o (IF post.frozen # (pre.frozen \/ (r.op.name = "freeze" /\ r.res = "ok")) THEN <<"C18:is_frozen">> ELSE <<>>)
 
 Verdict(r) ==
   IF r.preanom # <<>> THEN <<"tainted">> ELSE
